@@ -110,6 +110,55 @@ def two_element_order(v, concat):
     return True, "byte-order comparison selects (smaller, larger): %s" % rows
 
 
+def sorted_then_appended(v, sort):
+    """The key built without `concat()`: the labels' byte strings are collected, sorted bytewise, and appended one after
+    the other (every one of them, in the sorted order) to the vector that is returned."""
+    from .common import vec_additions
+    sb, st = sort
+    a0 = st["args"][0]
+    if a0["k"] not in ("copy", "move"):
+        return False, "sort receiver is not a local"
+    sorted_locals = {a0["pl"]["l"]} | v.alias_roots(a0["pl"]["l"])
+    with v.opaque(r"as std::ops::DerefMut>::deref_mut$|as std::ops::Deref>::deref$"):
+        for o in v.origins_of_operand(a0, at=v.at_term(sb)):
+            c = call_of(v, o)
+            if c and c[1]["args"] and c[1]["args"][0]["k"] in ("copy", "move"):
+                l0 = c[1]["args"][0]["pl"]["l"]
+                sorted_locals |= {l0} | v.alias_roots(l0)
+    # what is sorted are the byte representations of the labels
+    elems = set()
+    for l in sorted_locals:
+        elems |= v.origins_of_place({"l": l, "p": []}, at=v.at_term(sb), taint=True)
+    bytes_sorted = any((o.kind in ("fnitem", "call")) and str(o.a).endswith("as_bytes") for o in elems)
+    byte_order = mname(st).endswith("::sort") or mname(st).endswith("::sort_unstable")
+    adds = [x for x in vec_additions(v, r"Vec<u8>") if x[3] in ("extend", "append", "push")]
+    if len(adds) != 1:
+        return False, "%d places append to the key" % len(adds)
+    ab, at_, elem, how, at = adds[0]
+    with v.opaque(r"Iterator>::next$"):
+        eos = v.origins_of_operand(elem, at=at)
+    from_sorted = False
+    for o in eos:
+        c = call_of(v, o)
+        if c and mname(c[1]).endswith("Iterator>::next"):
+            for l in sorted_locals:
+                src = v.origins_of_operand(c[1]["args"][0], at=v.at_term(c[0]), taint=True)
+                loc = v.origins_of_place({"l": l, "p": []}, at=v.at_term(c[0]), taint=True)
+                if src and loc and (src & loc):
+                    from_sorted = True
+            # every element is appended: from the loop body no way back to next() that avoids the append
+            from .common import body_always_passes
+            if not body_always_passes(v, c[0], ab, [b_ for b_ in v.return_blocks()]):
+                from_sorted = False
+    after = ab in v.reach_strict(sb) and must_pass_through(v, sb, [ab])
+    ret = {(o.kind, o.a, o.b) for o in v.origins_of_place({"l": 0, "p": []}) if o.kind != "err"}
+    recv = {(o.kind, o.a, o.b) for o in v.origins_of_operand(at_["args"][0], at=v.at_term(ab))} if at_ else set()
+    returned = bool(ret) and ret == recv
+    ok = bytes_sorted and byte_order and from_sorted and after and returned
+    return ok, "byte strings sorted bytewise: %s/%s; every sorted element appended after the sort: %s/%s; the appended vector is returned: %s" % (
+        bytes_sorted, byte_order, from_sorted, after, returned)
+
+
 def check_key_fns(ctx, model):
     fns = [("%s::state::pair_key" % F, 2), ("%s::state::trio_key" % F, 3)]
     # the pagination cursors are built by closures inside calc_range_start / trio_calc_range_start and must
@@ -129,6 +178,10 @@ def check_key_fns(ctx, model):
         concats = v.calls_to(r"::concat$")
         ok = len(sorts) == 1 and len(concats) == 1
         det = ""
+        if len(sorts) == 1 and not concats:
+            ok3, det3 = sorted_then_appended(v, sorts[0])
+            ctx.ob("C19-R1", "%s|sorted-then-concatenated" % p, ok3, det3, v.where(sorts[0][0]))
+            continue
         if not sorts and len(concats) == 1 and n == 2:
             ok2, det2 = two_element_order(v, concats[0])
             ctx.ob("C19-R1", "%s|sorted-then-concatenated" % p, ok2, det2, v.where(concats[0][0]))
